@@ -106,72 +106,99 @@ def _inside_bracket(tree, path) -> bool:
     return False
 
 
-def _naive_guards(cfg: CFG) -> List[int]:
-    out = []
-    for n in cfg.nodes:
-        if n.kind == "test" and any(isinstance(s, ast.Raise) for s in n.stmt.body):
-            t = text(norm(n.stmt.test))
-            if "utcoffset() is None" in t or "utcoffset is None" in t or "tzinfo is None" in t:
-                out.append(n.id)
-    return out
+def _refuses_naive(fn, vp, lookup=None) -> Optional[bool]:
+    """do the conditions of every returning path imply `<vp>.utcoffset() is not None`?  None = the function never mentions utcoffset"""
+    from . import paths as PT
+    from .paths import return_paths
+
+    rps, pths = return_paths(fn, lookup, Expander(fn))
+    atoms = set(PT.atoms_of(pths))
+    mine = [a for a in atoms if a in (f"{vp}.utcoffset() is None", f"{vp}.tzinfo is None")]
+    if not mine:
+        return None
+    goal = PT.Cond("and", [PT.atom(a, False) for a in mine[:1]])
+    if not rps:
+        return True
+    return all(PT.implies(pth.conds, goal) is not False for pth, _r, _s in rps)
 
 
 def z_r2_naive(p: Project, rep: Report):
-    rep.rule("Z-R2", "naive values are refused: on every path from a DateTime/Time write handler to the formatted text there is a raise guarded by `utcoffset() is None` - in the handler or in format_datetime (either suffices); the native-type readers (_convert_datetime/_convert_time) refuse naive values too")
+    rep.rule("Z-R2", "naive values are refused: the conditions of every returning path of a DateTime/Time write handler imply `value.utcoffset() is not None` - established in the handler or, when the handler returns format_datetime(...), in format_datetime (either suffices); the native-type readers refuse naive values too")
+    from .flat import flat
+
     scal, _ = scalar_types(p)
-    fd = p.get_function(TYPES, "format_datetime").node
-    fcfg = CFG(fd)
-    fguards = _naive_guards(fcfg)
-    frets = [n.id for n in fcfg.nodes if n.kind == "return"]
-    # the guard in format_datetime must test the value that is formatted: `utcoffset = value.utcoffset()` of the parameter
-    fd_ok = bool(fguards) and bool(frets) and fcfg.must_pass_through(frets, fguards)
-    if fd_ok:
-        ex = Expander(fd)
-        vp = params_of(fd)[1]
-        fd_ok = any(f"{vp}.utcoffset() is None" in ex.t(fcfg.nodes[g].stmt.test) for g in fguards)
+    fd0 = p.get_function(TYPES, "format_datetime").node
+    fd = flat(p, TYPES, fd0)
+    fd_ok = _refuses_naive(fd, params_of(fd0)[1])
     for name in ("DateTime", "Time"):
         ci = scal[name]
         nk = D.native_key(ci)
         h = D.family(ci, "unconvert").handler_for_native(nk)
         if h is None:
             continue
-        cfg = h.cfg
-        guards = _naive_guards(cfg)
-        rets = [n.id for n in cfg.nodes if n.kind == "return"]
-        own_ok = bool(guards) and bool(rets) and cfg.must_pass_through(rets, guards)
-        if own_ok:
-            vp = h.value_param()
-            own_ok = any(f"{vp}.utcoffset() is None" in text(norm(cfg.nodes[g].stmt.test)) for g in guards)
-        via_fd = all(isinstance(cfg.nodes[r].stmt.value, ast.Call) and text(cfg.nodes[r].stmt.value.func) == "format_datetime" for r in rets) and bool(rets)
-        ok = own_ok or (via_fd and fd_ok)
-        rep.check("Z-R2", f"{name}.unconvert[{nk}]:naive-refused", ok, f"a naive {nk} can be written: neither {h.qualname} nor format_datetime raises on utcoffset() is None on every path" if not ok else ("in handler" if own_ok else "in format_datetime"), tloc(p, h.fn))
-        # reader for the native type
+        own_ok = _refuses_naive(h.ffn, h.value_param(), h._lookup)
+        rps, _ = h.return_paths()
+        via_fd = bool(rps) and all(rtxt.startswith("format_datetime(") for _p, rtxt, _s in rps)
+        ok = (own_ok is True) or (via_fd and fd_ok is True)
+        if not ok and own_ok is None and not via_fd and fd_ok is None:
+            rep.note(f"Z-R2 undecided for {name} writer")
+            continue
+        rep.check("Z-R2", f"{name}.unconvert[{nk}]:naive-refused", ok, f"a naive {nk} can be written: neither {h.qualname} nor format_datetime refuses utcoffset() is None on every returning path" if not ok else ("in handler" if own_ok else "in format_datetime"), tloc(p, h.fn))
         hc = D.family(ci, "convert").handler_for_native(nk)
         if hc is not None and hc.key != D.DEFAULT:
-            ccfg = hc.cfg
-            g = _naive_guards(ccfg)
-            rets = [n.id for n in ccfg.nodes if n.kind == "return"]
-            ok = bool(g) and bool(rets) and ccfg.must_pass_through(rets, g)
-            rep.check("Z-R2", f"{name}.convert[{nk}]:naive-refused", ok, f"a naive {nk} is accepted as a model value" if not ok else "", tloc(p, hc.fn))
+            r = _refuses_naive(hc.ffn, hc.value_param(), hc._lookup)
+            rep.check("Z-R2", f"{name}.convert[{nk}]:naive-refused", r is True, f"a naive {nk} is accepted as a model value" if r is not True else "", tloc(p, hc.fn))
 
 
 def z_r3_writer_shape(p: Project, rep: Report):
-    rep.rule("Z-R3", "the offset the writer emits lies inside the reader's grammar: sign (+/-) and integer hours, optional '.' + 2-digit minutes, optional ':' + name, and the reader's offset groups admit digits and both signs, a 2-digit minutes group and a ':'-introduced name")
-    fd = p.get_function(TYPES, "format_datetime").node
-    assigns = [s for s in own_statements(fd) if isinstance(s, (ast.Assign, ast.AugAssign))]
-    tz_first = [s for s in assigns if isinstance(s, ast.Assign) and isinstance(s.targets[0], ast.Name) and s.targets[0].id == "tz"]
-    ok = bool(tz_first) and isinstance(tz_first[0].value, ast.JoinedStr) and len([v for v in tz_first[0].value.values if isinstance(v, ast.FormattedValue)]) == 2
-    rep.check("Z-R3", "format_datetime:offset=sign+hours", ok, "the offset does not start with a sign and the hours" if not ok else "", tloc(p, fd))
-    sign = [s for s in assigns if isinstance(s, ast.Assign) and isinstance(s.targets[0], ast.Name) and s.targets[0].id == "sign"]
-    ok = bool(sign) and isinstance(sign[0].value, ast.IfExp) and {text(sign[0].value.body), text(sign[0].value.orelse)} == {"'-'", "'+'"} and text(norm(sign[0].value.test)) in ("offset_mins < 0",) and text(sign[0].value.body) == "'-'"
-    rep.check("Z-R3", "format_datetime:sign", ok, "the sign is not '-' exactly for negative offsets" if not ok else "", tloc(p, fd))
-    mins = [s for s in assigns if isinstance(s, ast.AugAssign) and text(s.target) == "tz" and isinstance(s.value, ast.JoinedStr)]
-    ok = any(any(isinstance(v, ast.FormattedValue) and v.format_spec is not None and "02d" in text(v.format_spec) for v in s.value.values) and any(isinstance(v, ast.Constant) and v.value == "." for v in s.value.values) for s in mins)
-    rep.check("Z-R3", "format_datetime:minutes=.MM", ok, "minutes are not written as '.' + two digits" if not ok else "", tloc(p, fd))
-    # hours/minutes from divmod(abs(offset_mins), 60)
-    dm = [s for s in assigns if isinstance(s, ast.Assign) and isinstance(s.value, ast.Call) and text(s.value.func) == "divmod"]
-    ok = bool(dm) and text(dm[0].value) == "divmod(abs(offset_mins), 60)" and text(dm[0].targets[0]) == "(hours, mins)"
-    rep.check("Z-R3", "format_datetime:hours-mins-split", ok, f"hours/minutes are computed as {text(dm[0].value) if dm else None}" if not ok else "", tloc(p, fd))
+    rep.rule("Z-R3", "the offset the writer emits lies inside the reader's grammar: '-' exactly for negative offsets, hours and minutes split from the ABSOLUTE offset, minutes as '.' + 2 digits; the reader's offset groups admit digits and both signs, a 2-digit minutes group and a ':'-introduced name.  (Writer clauses are decided on the flattened function; a spelling that is neither the known-good nor a known-bad form leaves the clause undecided.)")
+    from . import canon
+    from .flat import flat
+    from .paths import canon_atom
+
+    fd0 = p.get_function(TYPES, "format_datetime").node
+    fd = canon.formats_to_fstrings(flat(p, TYPES, fd0))
+    ex = Expander(fd)
+    # --- sign
+    decided = False
+    for n in ast.walk(fd):
+        test = pos = neg = None
+        if isinstance(n, ast.IfExp) and isinstance(n.body, ast.Constant) and isinstance(n.orelse, ast.Constant) and {n.body.value, n.orelse.value} == {"-", "+"}:
+            test, minus_on_true = n.test, n.body.value == "-"
+        elif isinstance(n, ast.If) and n.orelse and len(n.body) == 1 and len(n.orelse) == 1 and all(isinstance(b, ast.Assign) and isinstance(b.value, ast.Constant) for b in (n.body[0], n.orelse[0])) and {n.body[0].value.value, n.orelse[0].value.value} == {"-", "+"}:
+            test, minus_on_true = n.test, n.body[0].value.value == "-"
+        else:
+            continue
+        a, pol = canon_atom(ex.x(test))
+        decided = True
+        if a.endswith(" < 0"):
+            ok = (pol == minus_on_true)
+        elif a.startswith("0 < "):
+            # '-' chosen when NOT (0 < x): that is x <= 0, wrong for zero only cosmetically (+0/-0) but flags the boundary
+            ok = False
+        else:
+            rep.note(f"Z-R3 undecided: sign chosen on `{a}`")
+            continue
+        rep.check("Z-R3", "format_datetime:sign", ok, f"'-' is chosen when `{'' if (pol == minus_on_true) else 'not '}{a}`: the sign must be '-' exactly for negative offsets" if not ok else "", tloc(p, fd0))
+    if not decided:
+        rep.note("Z-R3 undecided: sign selection not recognised")
+    # --- hours / minutes split
+    dms = [c for c in ast.walk(fd) if isinstance(c, ast.Call) and isinstance(c.func, ast.Name) and c.func.id == "divmod" and len(c.args) == 2]
+    if dms:
+        for c in dms:
+            a0 = ex.t(c.args[0])
+            ok = a0.startswith("abs(") and text(c.args[1]) == "60"
+            rep.check("Z-R3", "format_datetime:hours-mins-split", ok, f"hours/minutes are computed as divmod({a0}, {text(c.args[1])}): for negative offsets floor division gives the wrong hours/minutes unless the absolute value is split" if not ok else "", tloc(p, fd0))
+    else:
+        rep.note("Z-R3 undecided: no divmod() split of the offset")
+    # --- minutes format
+    specs = [(text(v.value), text(v.format_spec)) for j in ast.walk(fd) if isinstance(j, ast.JoinedStr) for v in j.values if isinstance(v, ast.FormattedValue) and v.format_spec is not None]
+    mins = [sp for val, sp in specs if "min" in val.lower() and "offset" not in val.lower()]
+    if mins:
+        ok = all("02d" in sp for sp in mins)
+        rep.check("Z-R3", "format_datetime:minutes=.MM", ok, f"offset minutes are formatted with {mins}: the reader requires exactly two digits" if not ok else "", tloc(p, fd0))
+    else:
+        rep.note("Z-R3 undecided: minutes format not recognised")
     for clsname in ("DateTime", "Time"):
         r = rx.class_regex(p, TYPES, clsname)
         items, path = r.find_group("gmt_offset_hours")
@@ -192,43 +219,77 @@ def z_r3_writer_shape(p: Project, rep: Report):
 
 
 def z_r4_conversion(p: Project, rep: Report):
-    rep.rule("Z-R4", "the str reader turns the matched fields into the value: milliseconds x 1000 = microseconds, absent fields count as 0, the offset is SUBTRACTED and the result labelled UTC (both DateTime and Time)")
+    rep.rule("Z-R4", "the str reader turns the matched fields into the value: milliseconds x 1000 = microseconds, absent fields count as 0, the offset is SUBTRACTED and the result labelled UTC (both DateTime and Time), offset minutes are int(minutes or 0).  Known-good spellings hold, known-bad ones (another factor, '+', another default) are violations, anything else is left undecided.")
+    from .flat import flat
+    from .paths import return_paths
+
     scal, _ = scalar_types(p)
     dt = scal["DateTime"]
     h = D.family(dt, "convert").get("str")
-    fn = h.fn
-    ms = [s for s in own_statements(fn) if isinstance(s, ast.Assign) and "microsecond" in text(s.targets[0])]
-    ok = bool(ms) and text(norm(ms[0].value)).replace(" ", "") in ("1000*intmatches.pop('millisecond')", "intmatches.pop('millisecond')*1000", "1000*intmatches['millisecond']")
-    rep.check("Z-R4", "DateTime._convert_str:ms-to-us", ok, f"microseconds computed as {text(ms[0].value) if ms else None}; expected 1000 x milliseconds" if not ok else "", tloc(p, fn))
-    im = [s for s in own_statements(fn) if isinstance(s, ast.Assign) and isinstance(s.value, ast.DictComp) and "int(" in text(s.value)]
-    ok = bool(im) and text(im[0].value.value) in ("int(v or 0)", "int(v) if v else 0")
-    rep.check("Z-R4", "DateTime._convert_str:absent-fields-zero", ok, f"fields converted as {text(im[0].value.value) if im else None}" if not ok else "", tloc(p, fn))
+    fn = h.ffn
+    ex = Expander(fn)
+    # --- ms -> us
+    mults = [b for b in ast.walk(fn) if isinstance(b, ast.BinOp) and isinstance(b.op, ast.Mult) and any(isinstance(x, ast.Constant) and isinstance(x.value, int) and x.value >= 10 for x in (b.left, b.right)) and "milli" in ex.t(b).lower()]
+    if mults:
+        for b in mults:
+            k = b.left.value if isinstance(b.left, ast.Constant) else b.right.value
+            rep.check("Z-R4", "DateTime._convert_str:ms-to-us", k == 1000, f"microseconds are computed as {text(b)}: milliseconds must be multiplied by 1000" if k != 1000 else "", tloc(p, h.fn))
+    else:
+        rep.note("Z-R4 undecided: millisecond -> microsecond conversion not recognised")
+    # --- absent fields
+    ints = [c for c in ast.walk(fn) if isinstance(c, ast.Call) and isinstance(c.func, ast.Name) and c.func.id == "int" and c.args and isinstance(c.args[0], ast.BoolOp) and isinstance(c.args[0].op, ast.Or) and isinstance(c.args[0].values[-1], ast.Constant)]
+    ints = [c for c in ints if "hours" not in text(c) and "minutes" not in text(c)]
+    if ints:
+        for c in ints:
+            d = c.args[0].values[-1].value
+            rep.check("Z-R4", "DateTime._convert_str:absent-fields-zero", d == 0, f"absent fields default to {d!r} ({text(c)})" if d != 0 else "", tloc(p, h.fn))
+    else:
+        rep.note("Z-R4 undecided: defaulting of absent fields not recognised")
+    # --- normalize_to_gmt
     for name in ("DateTime", "Time"):
         ci = scal[name]
-        c, nfn = ci.find_method("normalize_to_gmt")
-        if nfn is None:
-            raise AnalysisError(f"{name}.normalize_to_gmt not found")
-        params = params_of(nfn)
-        rets = [r for r in own_nodes(nfn) if isinstance(r, ast.Return) and r.value is not None]
-        ok = bool(rets)
-        for r in rets:
-            t = text(r.value)
-            sub = [b for b in ast.walk(r.value) if isinstance(b, ast.BinOp) and isinstance(b.op, ast.Sub) and text(b.right) == params[2]]
-            add = [b for b in ast.walk(r.value) if isinstance(b, ast.BinOp) and isinstance(b.op, ast.Add) and params[2] in text(b)]
-            if not sub or add or "tzinfo=utils.UTC" not in t.replace(" ", ""):
-                ok = False
-        rep.check("Z-R4", f"{name}.normalize_to_gmt:subtracts-offset-labels-UTC", ok, f"returns {[text(r.value) for r in rets]}; expected (value - gmt_offset) re-labelled tzinfo=UTC" if not ok else "", tloc(p, nfn))
-    # the reader returns normalize_to_gmt(<type>(**fields), <parsed offset>)
-    rets = [r for r in own_nodes(fn) if isinstance(r, ast.Return) and r.value is not None]
-    ok = bool(rets) and all(isinstance(r.value, ast.Call) and text(r.value.func) == "self.normalize_to_gmt" and len(r.value.args) == 2 and text(r.value.args[0]).startswith("self.__type__(**") for r in rets)
-    rep.check("Z-R4", "DateTime._convert_str:returns-normalized", ok, "" if ok else "the reader does not return self.normalize_to_gmt(self.__type__(**fields), offset)", tloc(p, fn))
-    # parse_gmt_offset: minutes passed through, hours int()'d
-    c, pfn = dt.find_method("parse_gmt_offset")
-    if pfn is not None:
-        rets = [r for r in own_nodes(pfn) if isinstance(r, ast.Return) and r.value is not None]
-        pp = params_of(pfn)
-        ok = bool(rets) and all(isinstance(r.value, ast.Call) and text(r.value.func).endswith("gmt_offset") and len(r.value.args) == 2 and text(r.value.args[1]) == f"int({pp[2]} or 0)" for r in rets)
-        rep.check("Z-R4", "parse_gmt_offset:hours-minutes", ok, "" if ok else "offset minutes are not passed through as int(minutes or 0)", tloc(p, pfn))
+        c, nfn0 = ci.find_method("normalize_to_gmt")
+        if nfn0 is None:
+            rep.note(f"Z-R4 undecided: {name}.normalize_to_gmt not found")
+            continue
+        nfn = flat(p, TYPES, nfn0, ci)
+        params = params_of(nfn0)
+        off = params[2]
+        rps, _ = return_paths(nfn, expander=Expander(nfn))
+        for i, (pth, rtxt, sc) in enumerate(rps):
+            if f"+ {off}" in rtxt or f"{off} +" in rtxt:
+                rep.check("Z-R4", f"{name}.normalize_to_gmt:subtracts-offset-labels-UTC", False, f"returns {rtxt[:80]}: the offset is ADDED; local time minus its UTC offset is UTC", tloc(p, nfn0))
+            elif f"- {off}" in rtxt and "tzinfo=utils.UTC" in rtxt.replace(" ", "").replace("tzinfo=UTC", "tzinfo=utils.UTC"):
+                rep.check("Z-R4", f"{name}.normalize_to_gmt:subtracts-offset-labels-UTC", True, "", tloc(p, nfn0))
+            elif f"- {off}" in rtxt:
+                rep.check("Z-R4", f"{name}.normalize_to_gmt:subtracts-offset-labels-UTC", False, f"returns {rtxt[:80]}: the shifted value is not labelled UTC", tloc(p, nfn0))
+            else:
+                rep.note(f"Z-R4 undecided: {name}.normalize_to_gmt returns {rtxt[:60]}")
+    # --- the reader returns the normalised value
+    rps, _ = h.return_paths()
+    for pth, rtxt, sc in rps:
+        ok = "normalize_to_gmt(" in rtxt
+        if not ok and "tzinfo=" in rtxt and " - " in rtxt:
+            ok = True
+        rep.check("Z-R4", "DateTime._convert_str:returns-normalized", ok, f"the reader returns {rtxt[:70]}, which is not normalised to UTC" if not ok else "", tloc(p, h.fn))
+    # --- parse_gmt_offset
+    c, pfn0 = dt.find_method("parse_gmt_offset")
+    if pfn0 is not None:
+        pfn = flat(p, TYPES, pfn0, dt)
+        pp = params_of(pfn0)
+        rps, _ = return_paths(pfn, expander=Expander(pfn))
+        for pth, rtxt, sc in rps:
+            import re as _re
+
+            m = _re.search(r"gmt_offset\((.*), (int\(.*\))\)$", rtxt)
+            if not m:
+                rep.note(f"Z-R4 undecided: parse_gmt_offset returns {rtxt[:60]}")
+                continue
+            ok = m.group(2) == f"int({pp[2]} or 0)"
+            if not ok and pp[2] in m.group(2):
+                rep.note(f"Z-R4 undecided: minutes passed as {m.group(2)}")
+                continue
+            rep.check("Z-R4", "parse_gmt_offset:hours-minutes", ok, f"offset minutes are passed as {m.group(2)}" if not ok else "", tloc(p, pfn0))
 
 
 def z_r1b_separators(p: Project, rep: Report):
